@@ -91,7 +91,19 @@ def r20_1(ctx: Ctx) -> None:
                 continue
             good = False
             if isinstance(arg, ast.Name):
-                srcs = bound_from(func, arg.id)
+                # through plain renamings (an inlined helper returns its local)
+                srcs, seen_names = [], set()
+                todo = [arg.id]
+                while todo:
+                    name = todo.pop()
+                    if name in seen_names:
+                        continue
+                    seen_names.add(name)
+                    for v in bound_from(func, name):
+                        if isinstance(v, ast.Name):
+                            todo.append(v.id)
+                        else:
+                            srcs.append(v)
                 good = len(srcs) >= 1 and all(isinstance(v, ast.Call) and call_name(v) in ("json.dumps", "dumps") for v in srcs)
                 forms.append(f"{txt(wr)} <- {'; '.join(txt(v)[:50] for v in srcs)}")
             ok = ok and good
